@@ -9,7 +9,7 @@
 (* certified [lower, upper] enclosure.  T(lambda, d, n, |F|) -- the least t *)
 (* satisfying the bound -- is therefore obtained as an interval [tlo, thi]; *)
 (* where the two ends differ the point is UNDECIDED (reported, never an     *)
-(* alarm).  |F| enters through its bit length b:  2^(b-1) < |F| < 2^b.      *)
+(* alarm).  |F| enters through its bit length b and its 19 leading bits.    *)
 (***************************************************************************)
 EXTENDS Naturals, Integers, Sequences, FiniteSets, TLC
 
@@ -93,6 +93,17 @@ ScaledFrom(m, s, j, acc) ==
   ELSE ScaledFrom(m, s, j + 1, IF (m \div (2 ^ j)) % 2 = 1 /\ s - j >= 1 THEN AddL(acc, Pow2Neg(s - j)) ELSE acc)
 Scaled(m, s) == ScaledFrom(m, s, 0, ZeroL)
 
+\* a * 2^-s for s >= 0 (shift right by s bits): Down drops the bits shifted out, Up adds one ulp
+ShrDown(a, s) ==
+  LET k == s \div BBits
+      r == s % BBits
+      pw == 2 ^ r
+  IN [i \in 1..L |->
+        LET hi == IF i - k >= 1 THEN a[i - k] ELSE 0
+            lo == IF i - k - 1 >= 1 THEN a[i - k - 1] ELSE 0
+        IN (hi \div pw) + (lo % pw) * (B \div pw)]
+ShrUp(a, s) == AddL(ShrDown(a, s), Ulp)
+
 RECURSIVE Gcd(_, _)
 Gcd(a, b) == IF b = 0 THEN a ELSE Gcd(b, a % b)
 
@@ -108,9 +119,13 @@ Oracle(c) ==
       xlo == FracDown(p, q)
       xhi == FracUp(p, q)
       eps == Pow2Neg(c.lam)
-      \* n/|F| lies strictly between n/2^bits and n/2^(bits-1)
-      resLo == Scaled(c.nm, c.bits - c.ne)
-      resHi == AddL(Scaled(c.nm, c.bits - 1 - c.ne), Ulp)
+      \* n/|F|: with the 19 leading bits `top` of the modulus, |F| lies in [top, top+1) * 2^(bits-19), so
+      \* n/|F| is enclosed by nm/(top+1) * 2^-s and nm/top * 2^-s, s = bits - 19 - ne (relative width 2^-18);
+      \* without them only 2^(bits-1) < |F| < 2^bits is used (width: a factor 2)
+      sh == c.bits - 19 - c.ne
+      tight == c.top > 0 /\ c.nm < c.top /\ sh >= 0
+      resLo == IF tight THEN ShrDown(FracDown(c.nm, c.top + 1), sh) ELSE Scaled(c.nm, c.bits - c.ne)
+      resHi == IF tight THEN ShrUp(FracUp(c.nm, c.top), sh) ELSE AddL(Scaled(c.nm, c.bits - 1 - c.ne), Ulp)
       usableSure == LtL(resHi, eps)           \* 2^-lam > n/2^(bits-1) > n/|F|
       refuseSure == LeqL(eps, resLo)          \* 2^-lam <= n/2^bits < n/|F|
       thrLo == HalfDown(SubL(eps, resHi))     \* lower bound on (2^-lam - n/|F|)/2
